@@ -275,6 +275,35 @@ def check_properties_file(ctx, relpath, expected, allowed):
     for n in expected:
         if isinstance(got.get(n), set):
             ctx.cov["axioms"][n] = sorted(got[n]) if got[n] else []
+    if ctx.thorough and os.environ.get("VERIF_NO_COQCHK") != "1":
+        run_coqchk(ctx, relpath, allowed)
+
+
+def run_coqchk(ctx, relpath, allowed):
+    """thorough tier: re-check the compiled property file and everything it depends on with the
+    independent checker coqchk and compare the axioms it reports with the allow-list"""
+    mod = "BL." + relpath[:-2].replace("/", ".")
+    rc, out, err, dt = run(["coqchk", "-silent", "-o", "-Q", COQ, "BL", mod], timeout=2400, cwd=COQ)
+    txt = out + err
+    ok = rc == 0 and "relying on type-in-type: <none>" in txt and "unsafe (co)fixpoints: <none>" in txt and "positivity is assumed: <none>" in txt
+    axioms = []
+    m = re.search(r"\* Axioms:(.*?)\n\s*\n\* Constants", txt, re.S)
+    if m:
+        for line in m.group(1).splitlines():
+            line = line.strip()
+            if line and line != "<none>":
+                axioms.append(line)
+    union = set()
+    if isinstance(allowed, dict):
+        for v in allowed.values():
+            union |= set(v)
+    else:
+        union = set(allowed)
+    short = {a.split(".")[-1] for a in union}
+    extra = [a for a in axioms if a.split(".")[-1] not in short and not a.startswith(PRIMITIVE_PREFIXES)
+             and not any(p.rstrip(".") in a for p in PRIMITIVE_PREFIXES)]
+    ctx.obligation("coqchk:" + mod, ok and not extra, ("axioms outside the allow-list: %s" % extra) if extra else txt[-800:] if not ok else "")
+    ctx.cov["coqchk"] = {"module": mod, "seconds": round(dt, 1), "axioms": axioms}
 
 
 def run_bridge(ctx, gen_files, bridge_files):
